@@ -62,3 +62,15 @@ import PyodaProofs.C08DateTimeWF
 #print axioms Pyoda.C08.invariantCulture_monthHeadsEmpty
 #print axioms Pyoda.C08.date_success_valid
 #print axioms Pyoda.C08.datetime_success_valid
+#print axioms Pyoda.C08.compileAnnual_total
+#print axioms Pyoda.C08.compileDuration_total
+#print axioms Pyoda.C08.durFromNanos_ok
+#print axioms Pyoda.C08.durationValue_total
+#print axioms Pyoda.C08.annual_parse_total
+#print axioms Pyoda.C08.duration_parse_total
+#print axioms Pyoda.C08.compileAnnual_wf
+#print axioms Pyoda.C08.annualValue_valid
+#print axioms Pyoda.C08.annual_success_valid
+#print axioms Pyoda.C08.durationValue_valid
+#print axioms Pyoda.C08.parseCompiled_duration_valid
+#print axioms Pyoda.C08.duration_success_valid
